@@ -122,6 +122,9 @@ func runFED08(r *core.Run) {
 		execs, out := e.runOps(eng, []*fedOp{op}, func(o *fedOp) string { return o.Query }, func(int) []engine.ExecutionOptions {
 			return []engine.ExecutionOptions{engine.SimWithResolveContext(func(rc *resolve.Context) {
 				rc.ExecutionOptions.DisableSubgraphRequestDeduplication = true
+				// the plan travels in the extensions: cyclic fetch dependencies are a known planner
+				// defect (DESIGN.md 12.3) and classified as such below
+				rc.ExecutionOptions.IncludeQueryPlanInResponse = true
 			})}
 		})
 		if out == core.OutIdle {
@@ -139,24 +142,28 @@ func runFED08(r *core.Run) {
 			return
 		}
 		s := e.summarize(x, e.reqs)
+		shape := sharedKeyShape(op.Query)
+		if shape == "" && planHasDependencyCycle(x.w.body()) {
+			shape = "-plan-with-cyclic-fetch-dependencies"
+		}
 		if len(e.viol) > 0 {
 			r.Fail(prop, "invalid-subgraph-request", "", "schedule %d: %s\noperation: %s vars=%s\n%s", k, e.viol[0], op.Query, op.Vars, e.describe())
 		}
 		if !s.valid || s.data != want {
-			r.Fail(prop, "data-depends-on-schedule", "reference"+sharedKeyShape(op.Query), "schedule %d (strategy %d): data differs from the reference\noperation: %s vars=%s\ngot:  %s\nwant: %s\n%s", k, r.Strategy, op.Query, op.Vars, s.data, want, e.describe())
+			r.Fail(prop, "data-depends-on-schedule", "reference"+shape, "schedule %d (strategy %d): data differs from the reference\noperation: %s vars=%s\ngot:  %s\nwant: %s\n%s", k, r.Strategy, op.Query, op.Vars, s.data, want, e.describe())
 		}
 		if k == 0 {
 			first = s
 			continue
 		}
 		if s.data != first.data {
-			r.Fail(prop, "data-depends-on-schedule", "cross"+sharedKeyShape(op.Query), "schedules 0 and %d give different data\noperation: %s vars=%s\n0: %s\n%d: %s", k, op.Query, op.Vars, first.data, k, s.data)
+			r.Fail(prop, "data-depends-on-schedule", "cross"+shape, "schedules 0 and %d give different data\noperation: %s vars=%s\n0: %s\n%d: %s", k, op.Query, op.Vars, first.data, k, s.data)
 		}
 		if strings.Join(s.errs, "\n") != strings.Join(first.errs, "\n") {
-			r.Fail(prop, "errors-depend-on-schedule", sharedKeyShape(op.Query), "schedules 0 and %d give different error multisets\n%s", k, diffStrings(first.errs, s.errs))
+			r.Fail(prop, "errors-depend-on-schedule", shape, "schedules 0 and %d give different error multisets\n%s", k, diffStrings(first.errs, s.errs))
 		}
 		if strings.Join(s.reqs, "\n") != strings.Join(first.reqs, "\n") {
-			r.Fail(prop, "requests-depend-on-schedule", sharedKeyShape(op.Query), "schedules 0 and %d sent different subgraph requests (a planned request missing, duplicated or built from incomplete data)\noperation: %s vars=%s\n%s\n%s", k, op.Query, op.Vars, diffStrings(first.reqs, s.reqs), e.describe())
+			r.Fail(prop, "requests-depend-on-schedule", shape, "schedules 0 and %d sent different subgraph requests (a planned request missing, duplicated or built from incomplete data)\noperation: %s vars=%s\n%s\n%s", k, op.Query, op.Vars, diffStrings(first.reqs, s.reqs), e.describe())
 		}
 	}
 	r.Strategy = base
